@@ -14,7 +14,7 @@ open ZoektModel.Query
 /-- **`doSelectRepoSet`**: for every loaded shard and every live document of it,
     the shard is selected and the rewritten query matches ⇔ the original `And` matches -/
 theorem doSelectRepoSet_union_partial (ctx : List Shard) (shards : List RShard) (cs : List Q)
-    (hwf : wf true true (.and cs) = true) (hH : HeadSafe shards cs)
+    (hwf : wf noEmpty true (.and cs) = true) (hH : HeadSafe shards cs)
     (rs : RShard) (hrs : rs ∈ shards) (d : Doc) (hl : rs.shard.live d = true) :
     (rs ∈ (doSelectRepoSet shards cs).1 ∧ eval (doSelectRepoSet shards cs).2 ctx rs.shard d = true) ↔
       eval (.and cs) ctx rs.shard d = true :=
@@ -28,7 +28,7 @@ theorem doSelectRepoSet_union_partial (ctx : List Shard) (shards : List RShard) 
     `HeadSafe`: if the first filter child of the top-level `And` is a single-entry `BranchesRepos` for the branch
     `HEAD`, then in every listed repository `HEAD` names the first branch and only that one. -/
 theorem C18_union_partial (ctx : List Shard) (shards : List RShard) (q : Q)
-    (hwf : wf true true q = true) (hH : HeadSafe shards (topChildren q))
+    (hwf : wf noEmpty true q = true) (hH : HeadSafe shards (topChildren q))
     (rs : RShard) (hrs : rs ∈ shards) (d : Doc) (hl : rs.shard.live d = true) :
     (rs ∈ (selectRepoSet shards q).1 ∧ eval (selectRepoSet shards q).2 ctx rs.shard d = true) ↔
       eval q ctx rs.shard d = true :=
@@ -41,15 +41,15 @@ theorem C18_union_partial (ctx : List Shard) (shards : List RShard) (q : Q)
     property's quantifier), `HEAD` naming the first branch of every listed repository (`GlobalHead`, needed only
     because the inner `List` goes through `selectRepoSet`), no empty `Branch` pattern, no parser-internal wrapper. -/
 theorem typerepo_equiv_partial (shards : List RShard) (hg : GoodShards shards) (hh : GlobalHead shards) (q : Q)
-    (hq : wf true false q = true) (hn : noScope q = true) :
-    wf true true (typeRepoEval shards q) = true ∧
+    (hq : wf noEmpty false q = true) (hn : noScope q = true) :
+    wf noEmpty true (typeRepoEval shards q) = true ∧
     ∀ s d, InCorpus (corpus shards) s d →
       eval (typeRepoEval shards q) (corpus shards) s d = eval q (corpus shards) s d :=
   typeRepoEval_spec shards hg hh q hq hn
 
 /-- the sharded `List` returns exactly the repositories that have a live matching document in some shard -/
 theorem sharded_list_exact_partial (shards : List RShard) (hg : GoodShards shards) (hh : GlobalHead shards) (q : Q)
-    (hq : wf true true q = true) (n : Str) :
+    (hq : wf noEmpty true q = true) (n : Str) :
     n ∈ shardedListNames shards q ↔
       ∃ rs ∈ shards, ∃ d ∈ rs.shard.docs, rs.shard.live d = true ∧ repoName rs.shard d = some n ∧
         eval q (corpus shards) rs.shard d = true :=
@@ -59,7 +59,7 @@ theorem sharded_list_exact_partial (shards : List RShard) (hg : GoodShards shard
     rewrite the filter, then in each selected shard simplify against the shard, expand and evaluate — selects a live
     document of a loaded shard exactly when the *original* query matches it: the union of per-shard answers -/
 theorem C18_search_union_partial (shards : List RShard) (hg : GoodShards shards) (hh : GlobalHead shards) (q : Q)
-    (hq : wf true false q = true) (hn : noScope q = true)
+    (hq : wf noEmpty false q = true) (hn : noScope q = true)
     (rs : RShard) (hrs : rs ∈ shards) (d : Doc) (hd : d ∈ rs.shard.docs) (hl : rs.shard.live d = true) :
     (rs ∈ (selectRepoSet shards (typeRepoEval shards q)).1 ∧
       eval (expand (shardSimplify rs.shard (selectRepoSet shards (typeRepoEval shards q)).2)) (corpus shards) rs.shard d = true) ↔
@@ -69,7 +69,7 @@ theorem C18_search_union_partial (shards : List RShard) (hg : GoodShards shards)
   have w2 := selectRepoSet_wf shards _ w1
   obtain ⟨hv, _⟩ := hg rs hrs
   have hin : InCorpus (shards.map (·.shard)) rs.shard d := ⟨List.mem_map.mpr ⟨rs, hrs, rfl⟩, hd, hl⟩
-  obtain ⟨w3, e3⟩ := shardSimplify_pres (shards.map (·.shard)) (nb := true) rfl rs.shard hv _ w2
+  obtain ⟨w3, e3⟩ := shardSimplify_pres (shards.map (·.shard)) (pb := noEmpty) rs.shard (branchOK_noEmpty _ _) hv _ w2
   have e4 := (expand_pres (scope_nt (shards.map (·.shard)) (InShard rs.shard)) _ w3).2 rs.shard d ⟨rfl, hl⟩
   rw [e4, e3 rs.shard d ⟨rfl, hl⟩, ← e1 rs.shard d hin]
   exact selectRepoSet_union (shards.map (·.shard)) shards _ w1 (headSafe_of_global shards hh _) rs hrs d hl
@@ -129,7 +129,7 @@ def exShard : RShard := { shard := ⟨[exRepo], [[71, 111]], 12, [exDoc]⟩, fai
 def exQ : Q := .branchesRepos [(HEAD, [1])]
 
 theorem C18_union_full_false :
-    ¬ ∀ (ctx : List Shard) (shards : List RShard) (q : Q), wf true true q = true →
+    ¬ ∀ (ctx : List Shard) (shards : List RShard) (q : Q), wf noEmpty true q = true →
       ∀ rs ∈ shards, ∀ d, rs.shard.live d = true →
         ((rs ∈ (selectRepoSet shards q).1 ∧ eval (selectRepoSet shards q).2 ctx rs.shard d = true) ↔
           eval q ctx rs.shard d = true) := by
